@@ -26,6 +26,9 @@ def generate(rng, idx, tier, variant):
         names = spec['endo'] + spec['exo']
     np_err = rng.choice(['default'] * 6 + ['ignore', 'warn', 'raise', 'raise'])
     spec['_allow_huge'] = np_err != 'raise'
+    int_model = (not parser) and rng.random() < 0.07
+    if int_model:
+        S.make_integer_model(rng, spec)  # values beyond 2**53: a snapshot that detours through float64 is not the stored value
     n, lags, leads = spec['span']['n'], spec['lags'], spec['leads']
     spec['trace_variables'] = None if rng.random() < 0.6 else rng.sample(names, rng.randint(1, len(names)))
     handles = list(names)
@@ -40,8 +43,11 @@ def generate(rng, idx, tier, variant):
     ops = list(pokes)
     solved_specs = {}
     for _ in range(rng.choice([1, 2, 2, 3, 4])):
-        faults = rng.random() < 0.6
+        faults = rng.random() < 0.6 and not int_model
         opts = S.gen_opts(rng, faults)
+        if int_model:
+            opts['tol'] = rng.choice([1, 2])
+            opts['errors'] = 'raise'
         if opts['errors'] == 'bogus':
             opts['errors'] = 'replace'
         opts['offset'] = rng.choice([0, 0, 0, -1, 1, -2, n + 1])
@@ -110,8 +116,10 @@ def generate(rng, idx, tier, variant):
         }
         if spec['kind'] == 'scripted':
             plan, placed = S.gen_plan(rng, opts, spec, faults, idx)
+            if int_model:
+                plan = S.integer_plan(plan)
             op['plan'] = {'*': plan}
-            if rng.random() < 0.03 and not off_call:
+            if rng.random() < 0.03 and not off_call and not int_model:
                 # a very long trace (well past a hundred snapshots) of several variables
                 opts.update({'max_iter': 140, 'min_iter': 0, 'failures': 'ignore', 'errors': 'ignore', 'tol': 2.0**-10, 'offset': 0})
                 op['plan'] = {'*': {'passes': [], 'default': {'a': 'delta', 'd': [1.0] * len(spec['endo'])}}}
@@ -123,9 +131,9 @@ def generate(rng, idx, tier, variant):
         if rng.random() < 0.12:
             ops.append({'op': 'copy', 'route': rng.choice(['copy', 'copy.copy', 'deepcopy'])})
         if rng.random() < 0.2:
-            ops.append({'op': 'add_variable', 'name': f'N{len(ops)}', 'v': rng.choice(S.DYADS)})
+            ops.append({'op': 'add_variable', 'name': f'N{len(ops)}', 'v': rng.choice(S.DYADS) if not int_model else S.BIG + rng.randrange(64)})
         elif rng.random() < 0.2:
-            ops.append({'op': 'poke', 'name': rng.choice(names), 'pos': rng.randrange(n), 'v': rng.choice(S.DYADS)})
+            ops.append({'op': 'poke', 'name': rng.choice(names), 'pos': rng.randrange(n), 'v': rng.choice(S.DYADS) if not int_model else S.BIG + rng.randrange(64)})
     spec.pop('_allow_huge', None)
     return {'spec': spec, 'ops': ops, 'np_err': np_err}
 
@@ -150,7 +158,7 @@ def build_triplet(fsic, spec):
         traced = type('Traced', (TracerMixin, base), {'TRACE_VARIABLES': spec.get('trace_variables')})
     out = []
     for cls in (traced, traced, base):
-        m = probes.new_scripted_instance(cls, spans.make_span(spec['span']), spec['init'])
+        m = probes.new_scripted_instance(cls, spans.make_span(spec['span']), spec['init'], **S._dtype_kw(spec))
         probes.get_ctl(m).columns = True
         out.append(m)
     return out, span, endo, check
@@ -177,6 +185,9 @@ def _trace_names(m, tr, spec):
 
 
 def _val_eq(a, b):
+    b = probes.num(b)
+    if isinstance(b, int) and not isinstance(b, bool) and isinstance(a, (int, float, np.integer, np.floating)):
+        return probes.num(a) == b  # an integer recorded exactly: compared exactly (no detour through float64)
     try:
         fa, fb = float(a), float(b)
     except (TypeError, ValueError):
@@ -211,7 +222,7 @@ def execute(schedule, ctx):
         if op['op'] == 'poke':
             for m in (A, B, C):
                 if op['name'] in m.__dict__['index'] and 0 <= op['pos'] < n:
-                    m.__dict__['_' + op['name']][op['pos']] = probes.fval(op['v'])
+                    m.__dict__['_' + op['name']][op['pos']] = op['v'] if isinstance(op['v'], int) else probes.fval(op['v'])
             ctx.log(step, 'poke')
             ctx.outcome('poke', 'ok')
             continue
